@@ -41,10 +41,10 @@ pub fn plan(tier: &str) -> (PropMeta, Vec<Job>) {
     let cfg = NodeCfg { threshold: 1, tick: 0, ..Default::default() };
     let depth = 4;
     let a = alphabet(quick);
-    let mut cj = make_cat_jobs("C10", &cfg, "credentials", &[], &a, depth, &[], if quick { 300 } else { 3000 });
+    let mut cj = make_cat_jobs("C10", &cfg, "credentials", &[], &a, depth, &[], if quick { 300 } else { 3000 }, false);
     if !quick {
         // one level deeper on the core alphabet
-        cj.extend(make_cat_jobs("C10", &cfg, "credentials-deep", &[], &alphabet(true), 5, &[], 3000));
+        cj.extend(make_cat_jobs("C10", &cfg, "credentials-deep", &[], &alphabet(true), 5, &[], 3000, false));
     }
     let jobs = cj
         .into_iter()
